@@ -777,6 +777,53 @@ impl<'a> Gen<'a> {
         }
     }
 
+    /// user-declared generic classes: two placeholders, fields and methods typed with them, a
+    /// second generic class that instantiates the first with its OWN placeholder in another
+    /// position (`Table[V, Int]` inside `Index[V]`) and reads fields back through it
+    fn gen_user_generics(&mut self) {
+        self.counter += 1;
+        let t = format!("{}G{}", capitalise(&self.prefix), self.counter);
+        self.counter += 1;
+        let i = format!("{}G{}", capitalise(&self.prefix), self.counter);
+        let (k, v) = if self.rng.chance(1, 2) { ("K", "V") } else { ("A", "B") };
+        let coll = *self.rng.pick(&["List", "Set"]);
+        let (fk, fv) = (self.fresh("f"), self.fresh("f"));
+        self.out.push_str(&format!("class {t}[{k}, {v}](def {fk}: {coll}[{k}], def {fv}: {coll}[{v}])\n\n"));
+        let pt = self.prim();
+        let prim = self.ty_name(&pt);
+        // the second class reuses ITS placeholder name: the same as one of the first class's
+        // placeholders, in the other position, or a fresh one
+        let own = *self.rng.pick(&[v, k, "T"]);
+        let args = if self.rng.chance(1, 2) { format!("{own}, {prim}") } else { format!("{prim}, {own}") };
+        let ft = self.fresh("f");
+        self.out.push_str(&format!("class {i}[{own}](def {ft}: {t}[{args}])\n"));
+        let (m1, m2) = (self.fresh("m"), self.fresh("m"));
+        match self.rng.below(3) {
+            0 => {
+                let first_is_own = args.starts_with(own);
+                let (r1, r2) = if first_is_own { (own.to_string(), prim.clone()) } else { (prim.clone(), own.to_string()) };
+                self.out.push_str(&format!("    def {m1}(self) -> {coll}[{r1}] => self.{ft}.{fk}\n    def {m2}(self) -> {coll}[{r2}] => self.{ft}.{fv}\n\n"));
+            }
+            1 => {
+                let n = self.fresh("l");
+                self.out.push_str(&format!("    def {m1}(self) =>\n        def {n} := self.{ft}.{fk}\n        print({n})\n\n"));
+            }
+            _ => {
+                let n = self.fresh("l");
+                self.out.push_str(&format!("    def {m1}(self) =>\n        def {n} := self.{ft}.{fv}\n        print({n})\n\n"));
+            }
+        }
+        // and an ordinary instantiation
+        if self.rng.chance(1, 2) {
+            let x = self.fresh("v");
+            let (a, b) = (self.prim(), self.prim());
+            let (la, lb) = (self.lit(&a), self.lit(&b));
+            let (o, c) = if coll == "List" { ("[", "]") } else { ("{ ", " }") };
+            let y = self.fresh("v");
+            self.out.push_str(&format!("def {x} := {t}({o}{la}{c}, {o}{lb}{c})\ndef {y} := {x}.{fk}\n"));
+        }
+    }
+
     /// a written union that holds a subtype CHAIN of three (A, B: A, C: B — or Int, Float,
     /// Complex through the stub operators), with an argument whose type is inferred
     fn gen_chain_union(&mut self) {
@@ -1058,13 +1105,14 @@ impl<'a> Gen<'a> {
 
     fn gen_toplevel(&mut self) {
         let v = self.fresh("v");
-        let kinds = if self.conservative { 17 } else { 29 };
+        let kinds = if self.conservative { 17 } else { 31 };
         match self.rng.below(kinds) {
             18 | 19 | 20 => self.gen_same_class_union(&v),
             21 | 22 | 23 => self.gen_union_receiver(&v),
             24 => self.gen_alias(),
             25 | 26 => self.gen_callable(),
             27 | 28 => self.gen_chain_union(),
+            29 | 30 => self.gen_user_generics(),
             16 => {
                 let (ut, tys) = self.union_ty();
                 let k = self.rng.below(tys.len() as u64) as usize;
